@@ -26,7 +26,7 @@ def run(ctx):
         ("effective_purges", "no purge edge removed a tombstone"),
         ("refused_probes", "no 'still refused' probe was evaluated")])
     glob = cluster_model.run_all(ctx, "C08")
-    gcov = cluster_model.judge(ctx, glob, {"C01", "C02", "C08"})
+    gcov = cluster_model.judge(ctx, glob, {"C01", "C02", "C05", "C08"})
     purges = sum(r["rep"]["step_kinds"].get("purge", 0) for r in glob if r["kind"] == "simulated")
     ticks = sum(r["rep"]["step_kinds"].get("time", 0) for r in glob if r["kind"] == "simulated")
     if purges == 0 or ticks == 0:
